@@ -710,6 +710,12 @@ func (x *Exec) evalCall(env *Env, e *Expr) Value {
 			case Ptr:
 				return Scalar{T: s.Base, Typ: types.Typ[types.UnsafePointer]}
 			}
+		case "methodvalue":
+			// methodvalue("Type.Method"): the function value x.Method for an x of type (*)Type
+			if len(e.Args) == 1 && e.Args[0].Kind == "str" {
+				return FuncV{Name: x.fnID(e.Args[0].Name)}
+			}
+			x.fail("methodvalue needs a string literal")
 		case "dyn":
 			// dyn(x): the value stored in interface x (known only when x was just built from it)
 			v := x.evalExpr(env, e.Args[0])
@@ -785,6 +791,16 @@ func (x *Exec) evalSpecFunc(env *Env, sf *SpecFunc, e *Expr) Value {
 		actuals = append(actuals, v)
 		ptypes = append(ptypes, t)
 	}
+	if sf.Lazy {
+		// one-level unfolding, only where a goal is being expanded
+		if x.expandPreds && x.em.inQuant == 0 && x.lazyDepth == 0 {
+			x.lazyDepth++
+			v := x.evalExpr(&sub, sf.Body)
+			x.lazyDepth--
+			return v
+		}
+		return x.applyPredicate(&sub, sf, actuals, ptypes)
+	}
 	if sf.Opaque && (!x.expandPreds || x.em.inQuant > 0) {
 		return x.applyPredicate(&sub, sf, actuals, ptypes)
 	}
@@ -794,6 +810,7 @@ func (x *Exec) evalSpecFunc(env *Env, sf *SpecFunc, e *Expr) Value {
 type predDef struct {
 	fn     string
 	leaves []string
+	typ    types.Type // result type (bool for predicates)
 }
 
 // flatten lists the SMT terms (and sorts) that make up a value.
@@ -843,6 +860,12 @@ func (x *Exec) placeholder(t types.Type, hint string) Value {
 		return Iface{Tag: x.em.fresh(hint + ".tag"), Ref: x.em.fresh(hint + ".ref"), Typ: t}
 	case *types.Pointer:
 		return Ptr{Base: x.em.fresh(hint), Root: u.Elem()}
+	case *types.Array:
+		av := ArrayV{Typ: t}
+		for i := int64(0); i < u.Len(); i++ {
+			av.Elems = append(av.Elems, x.placeholder(u.Elem(), fmt.Sprintf("%s.%d", hint, i)))
+		}
+		return av
 	}
 	return Scalar{T: x.em.fresh(hint), Typ: t}
 }
@@ -867,9 +890,25 @@ func (x *Exec) applyPredicate(sub *Env, sf *SpecFunc, actuals []Value, ptypes []
 			x.flatten(pv, &pterms, &psorts)
 		}
 		x.em.inQuant++
-		body := x.evalBool(&penv, sf.Body)
+		bodyv := x.evalExpr(&penv, sf.Body)
 		x.em.inQuant--
-		def = &predDef{fn: "pred." + sanitize(sf.Name)}
+		var rtyp types.Type = boolT
+		if !sf.Lazy {
+			if s, ok := bodyv.(Scalar); !ok || !isBool(s.Typ) {
+				x.fail("predicate %s is not boolean", sf.Name)
+			}
+		} else {
+			switch bv := bodyv.(type) {
+			case Scalar:
+				rtyp = bv.Typ
+			case UntypedInt:
+				rtyp = u64T
+			default:
+				x.fail("opaquefunc %s: result of kind %T unsupported", sf.Name, bodyv)
+			}
+		}
+		body := ""
+		def = &predDef{fn: "pred." + sanitize(sf.Name), typ: rtyp}
 		def.leaves = sortedKeys(ph.Heap)
 		var binders, args, fsorts []string
 		for _, k := range def.leaves {
@@ -883,7 +922,7 @@ func (x *Exec) applyPredicate(sub *Env, sf *SpecFunc, actuals []Value, ptypes []
 			args = append(args, t)
 			fsorts = append(fsorts, psorts[i])
 		}
-		x.em.items = append(x.em.items, item{glob: true, line: fmt.Sprintf("(declare-fun %s (%s) Bool)", def.fn, strings.Join(fsorts, " "))})
+		x.em.items = append(x.em.items, item{glob: true, line: fmt.Sprintf("(declare-fun %s (%s) %s)", def.fn, strings.Join(fsorts, " "), sortOf(rtyp))})
 		// No defining axiom is emitted: the predicate is unfolded eagerly wherever
 		// it is applied ("application implies body"), and wherever it has to be
 		// proved the obligation offers the expanded body as an alternative goal.
@@ -908,12 +947,12 @@ func (x *Exec) applyPredicate(sub *Env, sf *SpecFunc, actuals []Value, ptypes []
 	// eager unfolding of the "predicate implies body" direction at the heap the
 	// application refers to (a valid instance of the defining axiom): nested
 	// quantifiers reached only through the axiom are instantiated unreliably.
-	if x.em.inQuant == 0 && !x.unfolded[app] {
+	if !sf.Lazy && x.em.inQuant == 0 && !x.unfolded[app] {
 		x.unfolded[app] = true
 		body := x.evalBool(sub, sf.Body)
 		x.em.items = append(x.em.items, item{glob: true, line: "(assert " + implies(app, body) + ")"})
 	}
-	return Scalar{T: app, Typ: boolT}
+	return Scalar{T: app, Typ: def.typ}
 }
 
 // evalGoCall evaluates a side-effect-free Go function by inlining its SSA.
